@@ -534,6 +534,7 @@ func (h *harness) pipelineCampaign() {
 		if rng.IntN(2) == 0 {
 			timeBase = time.Now().Unix() - 1000
 		}
+		h.newLayout("pipeline", true)
 		h.runPipelineCase(rng, srv, ps, path)
 	}
 }
@@ -551,7 +552,7 @@ func (h *harness) runPipelineCase(rng *rand.Rand, srv *pipeServer, ps *backendpb
 			return
 		}
 		reported[sig] = true
-		r.Violate("pipeline:"+sig, what, map[string]any{"campaign": "pipeline", "log": slices.Clone(log),
+		r.Violate("pipeline:"+sig, what, map[string]any{"campaign": "pipeline", "log": slices.Clone(log), "addresses": layoutText(),
 			"how": "gRPC backend -> backendpb.ProfileStorage -> profiledb.Default (cache file) -> look-ups; `sync` lines give the response served in the model's line format"})
 	}
 	var ec *errColl
@@ -559,6 +560,7 @@ func (h *harness) runPipelineCase(rng *rand.Rand, srv *pipeServer, ps *backendpb
 	rec := &recStorage{inner: ps}
 	// Lines for the model of the backendpb converters and what the real ones did.
 	var mlines, mwant []string
+	addrSeen := map[netip.Addr]bool{}
 	open := func() *realDB {
 		ec, mt = &errColl{}, &syncMetrics{}
 		db, err := profiledb.New(&profiledb.Config{
@@ -579,7 +581,7 @@ func (h *harness) runPipelineCase(rng *rand.Rand, srv *pipeServer, ps *backendpb
 	lookAll := func() {
 		for _, o := range allLookups() {
 			res := x.look(o.kind, o.a, o.b)
-			log = append(log, o.line()+" -> "+res.kind+" "+res.pid+" "+res.did)
+			log = append(log, keyText(o)+" -> "+res.kind+" "+res.pid+" "+res.did)
 			h.oracle(ref, o, res, false, violate)
 			r.Evaluations++
 			own := ref.owners(o.kind, o.a, o.b)
@@ -603,6 +605,14 @@ func (h *harness) runPipelineCase(rng *rand.Rand, srv *pipeServer, ps *backendpb
 						violate("device-setting-lost", fmt.Sprintf("%s: dedicated IPs of %s differ", o.line(), res.did))
 					}
 				}
+			}
+			if len(mlines) < 400 && !addrSeen[res.d.LinkedIP] {
+				// The linked address as delivered by the look-up (through
+				// backendpb and, after a restart, the cache) against the
+				// model's reading of the bytes the backend sent.
+				addrSeen[res.d.LinkedIP] = true
+				mlines = append(mlines, addrLine("rtaddr", ipBytes(linkedAddr(d.linked))))
+				mwant = append(mwant, addrText(res.d.LinkedIP)+" | …")
 			}
 			if len(mlines) < 400 {
 				u := settingsBits(p.tag)
@@ -760,6 +770,9 @@ func (h *harness) runPipelineCase(rng *rand.Rand, srv *pipeServer, ps *backendpb
 	ans := h.m.Batch(mlines)
 	r.ModelOps += len(mlines)
 	for k := range mlines {
+		if pre, ok := strings.CutSuffix(mwant[k], "…"); ok && strings.HasPrefix(ans[k], pre) {
+			continue
+		}
 		if ans[k] != mwant[k] {
 			r.Disagree("model-vs-backendpb", fmt.Sprintf("%q: model %q, implementation %q", mlines[k], ans[k], mwant[k]), map[string]any{"campaign": "pipeline", "line": mlines[k]})
 
